@@ -552,7 +552,14 @@ type Options struct {
 	XencPrefix string // namespace prefix of the xmlenc elements: "" = "xenc"; "-" = default namespace (no prefix)
 	DsPrefix   string // namespace prefix of the xmldsig elements: "" = "ds"; "-" = default namespace declared on each outermost xmldsig element
 	Extras     bool   // add the optional schema parts that carry no key material: KeySize, Recipient, ds:KeyName, CarriedKeyName, EncryptionProperties, MimeType
-	KeyIDRef   bool   // EncryptedData/KeyInfo carries a ds:RetrievalMethod URI="#<KeyID>" (sibling layout; needs KeyID)
+	// Other legal ds:KeyInfo children placed before / after the xenc:EncryptedKey inside
+	// EncryptedData/KeyInfo (DataKI*) and before / after the X509Data inside the
+	// EncryptedKey's own KeyInfo (KeyKI*).  Kinds: keyname | retrieval | x509data
+	// (subject name only, no certificate) | keyvalue (RSAKeyValue of the recipient) |
+	// foreign (an element of another namespace).  A KeyInfo is created when needed.
+	DataKIBefore, DataKIAfter []string
+	KeyKIBefore, KeyKIAfter   []string
+	KeyIDRef                  bool // EncryptedData/KeyInfo carries a ds:RetrievalMethod URI="#<KeyID>" (sibling layout; needs KeyID)
 }
 
 type names struct{ xp, dp string }
@@ -732,7 +739,72 @@ func EncryptParts(plaintext []byte, cert *x509.Certificate, o Options) (data, ke
 	if o.Extras {
 		key.CreateElement(nm.x("CarriedKeyName")).SetText("content key")
 	}
+	if len(o.KeyKIBefore)+len(o.KeyKIAfter) > 0 {
+		var ki *etree.Element
+		for _, ch := range key.ChildElements() {
+			if ch.Tag == "KeyInfo" {
+				ki = ch
+			}
+		}
+		if ki == nil {
+			ki = o.KeyInfoElement()
+			key.InsertChildAt(1, ki) // after EncryptionMethod
+		}
+		o.decorate(ki, o.KeyKIBefore, o.KeyKIAfter, cert)
+	}
 	return data, key, nil
+}
+
+// kiChild builds one optional KeyInfo child of the given kind (nil for an unknown kind).
+func (o Options) kiChild(kind string, cert *x509.Certificate) *etree.Element {
+	nm := o.names()
+	switch kind {
+	case "keyname":
+		e := etree.NewElement(nm.d("KeyName"))
+		e.SetText("recipient key")
+		return e
+	case "retrieval":
+		e := etree.NewElement(nm.d("RetrievalMethod"))
+		e.CreateAttr("Type", NSXenc+"EncryptedKey")
+		e.CreateAttr("URI", "#"+o.KeyID)
+		return e
+	case "x509data":
+		e := etree.NewElement(nm.d("X509Data"))
+		e.CreateElement(nm.d("X509SubjectName")).SetText("CN=recipient")
+		return e
+	case "keyvalue":
+		e := etree.NewElement(nm.d("KeyValue"))
+		rk := e.CreateElement(nm.d("RSAKeyValue"))
+		mod, exp := []byte{1}, []byte{1, 0, 1}
+		if cert != nil {
+			if pub, ok := cert.PublicKey.(*rsa.PublicKey); ok {
+				mod, exp = pub.N.Bytes(), big.NewInt(int64(pub.E)).Bytes()
+			}
+		}
+		rk.CreateElement(nm.d("Modulus")).SetText(base64.StdEncoding.EncodeToString(mod))
+		rk.CreateElement(nm.d("Exponent")).SetText(base64.StdEncoding.EncodeToString(exp))
+		return e
+	case "foreign":
+		e := etree.NewElement("ext:Hint")
+		e.CreateAttr("xmlns:ext", "urn:example:refenc:ext")
+		e.SetText("not a key")
+		return e
+	}
+	return nil
+}
+
+// decorate puts the optional children around what ki already holds.
+func (o Options) decorate(ki *etree.Element, before, after []string, cert *x509.Certificate) {
+	for i := len(before) - 1; i >= 0; i-- {
+		if e := o.kiChild(before[i], cert); e != nil {
+			ki.InsertChildAt(0, e)
+		}
+	}
+	for _, k := range after {
+		if e := o.kiChild(k, cert); e != nil {
+			ki.AddChild(e)
+		}
+	}
 }
 
 // EncryptElement returns a standard EncryptedData element whose content key is —
@@ -745,7 +817,12 @@ func EncryptElement(plaintext []byte, cert *x509.Certificate, opts Options) (*et
 	if key != nil {
 		ki := opts.KeyInfoElement()
 		ki.AddChild(key)
+		opts.decorate(ki, opts.DataKIBefore, opts.DataKIAfter, cert)
 		data.InsertChildAt(1, ki) // after EncryptionMethod, before CipherData
+	} else if len(opts.DataKIBefore)+len(opts.DataKIAfter) > 0 {
+		ki := opts.KeyInfoElement() // a directly shared key that is only named
+		opts.decorate(ki, opts.DataKIBefore, opts.DataKIAfter, cert)
+		data.InsertChildAt(1, ki)
 	}
 	return data, nil
 }
@@ -769,12 +846,21 @@ func EncryptedAssertion(plaintext []byte, cert *x509.Certificate, opts Options) 
 	}
 	ea.AddChild(data)
 	if key != nil {
+		var ki *etree.Element
 		if opts.KeyIDRef && opts.KeyID != "" {
 			nm := opts.names()
-			ki := opts.KeyInfoElement()
+			ki = opts.KeyInfoElement()
 			rm := ki.CreateElement(nm.d("RetrievalMethod"))
 			rm.CreateAttr("Type", NSXenc+"EncryptedKey")
 			rm.CreateAttr("URI", "#"+opts.KeyID)
+		}
+		if len(opts.DataKIBefore)+len(opts.DataKIAfter) > 0 {
+			if ki == nil {
+				ki = opts.KeyInfoElement()
+			}
+			opts.decorate(ki, opts.DataKIBefore, opts.DataKIAfter, cert)
+		}
+		if ki != nil {
 			data.InsertChildAt(1, ki)
 		}
 		ea.AddChild(key)
